@@ -19,6 +19,7 @@ from . import common
 ID = "C12"
 LEVEL = "fault_enumeration"
 BATCH = 10
+PROBES_EXPECTED = ['probe:changed-between-completed-syncs', 'probe:crash-history', 'probe:fault-free-history', 'probe:rerun-on-same-config', 'probe:tree-version-switch', 'probe:rename-table', 'crash@touch', 'crash@write', 'crash@write/torn', 'crash@replace', 'crash@create', 'crash@makedirs']
 TIERS = {"quick": {"runs": 2000, "wall": 50}, "thorough": {"runs": 80000, "wall": 840}}
 RULE = ("each run draws a program (optionally an evolved second version and a rename table), a history of 2-6 configurations with a "
         "sync after each (a fresh node per sync, as in a build), and optionally one crashed sync whose every mutating FS operation is a "
